@@ -6,15 +6,20 @@ sys.path.insert(0, os.path.dirname(os.path.dirname(os.path.abspath(__file__))))
 from sa.inline import function_keys
 root = os.path.join(os.environ.get("SA_REPO", "/repo"), "norminette")
 keys = []
+classes = []
 for dp, dn, fns in os.walk(root):
     dn[:] = sorted(d for d in dn if d != "__pycache__")
     for fn in sorted(fns):
         if fn.endswith(".py"):
             path = os.path.join(dp, fn)
             rel = os.path.relpath(path, root)
-            for key, *_ in function_keys(rel, ast.parse(open(path, encoding="utf-8").read())):
+            tree = ast.parse(open(path, encoding="utf-8").read())
+            for key, *_ in function_keys(rel, tree):
                 keys.append(key)
+            for st in tree.body:
+                if isinstance(st, ast.ClassDef):
+                    classes.append(f"{rel}::{st.name}")
 out = os.path.join(os.path.dirname(os.path.dirname(os.path.abspath(__file__))), "sa", "inventory.json")
-json.dump({"comment": "function keys of the pinned tree (plus fix: commits); see sa/inline.py", "functions": sorted(keys)},
+json.dump({"comment": "function keys of the pinned tree (plus fix: commits); see sa/inline.py", "functions": sorted(keys), "classes": sorted(classes)},
           open(out, "w"), indent=0)
-print(len(keys), "functions")
+print(len(keys), "functions", len(classes), "classes")
